@@ -4,11 +4,11 @@ Singleton differential: for an arbitrary fitted model and a symbolic batch, the 
 and on each singleton; row i of the batch result must equal the singleton result (subsumes concatenation,
 permutation and duplication of batches).
 """
-from harness import cls_ngram, cls_skipgram, C16_lz, cls_rowwise
+from harness import cls_ngram, cls_skipgram, C16_lz, cls_rowwise, C08_ot
 
 
 def cases(tier):
     grid = None
     if tier == "quick":
         grid = [((2,), (1, 1), 1, "exact", False, None), ((3,), (2, 1), 2, "exact", False, None), ((2, 1), (2, 0), 2, "subgrams", False, "excluded")]
-    return cls_ngram.ngram_cases(tier, ["C12"], grid) + cls_skipgram.cases(tier, ("C12",)) + C16_lz.cases(tier) + cls_rowwise.cases(tier)
+    return cls_ngram.ngram_cases(tier, ["C12"], grid) + cls_skipgram.cases(tier, ("C12",)) + C16_lz.cases(tier) + cls_rowwise.cases(tier) + [c for c in C08_ot.cases(tier) if c.name.startswith(("kernel_chunks", "transform_plumbing"))]
